@@ -279,7 +279,9 @@ class _EulerBernoulli(_GroupElem):
         P = np.zeros((self.Ne, 3, 3))
         for beam in beamStructure.beams:
             elems = self.Get_Elements_Tag(beam.name)
-            P[elems] = beam._Calc_P()
+            # _Calc_P gives coord(x,y,z) = P • coord(i,j,k); the element matrices act on the
+            # global dofs, which must be brought back to the beam axes: coord(i,j,k) = P^T • coord(x,y,z)
+            P[elems] = beam._Calc_P().T
 
         P_e_pg = FeArray.zeros(Ne, 1, dof_n * nPe, dof_n * nPe)
         N = P.shape[-1]
